@@ -120,7 +120,9 @@ def same(a, b):
         if overflowish(a) or overflowish(b):
             return overflowish(a) and overflowish(b)
         fa, fb = float(a), float(b)
-        return fa == fb or abs(fa - fb) <= 1e-12 * max(abs(fa), abs(fb))
+        # exact up to 2**53; beyond it a host int result (exact integer arithmetic) and the double computed from float operands may
+        # differ in the last place - host ints of that size are not numbers a script can hold, so the two count as one result
+        return fa == fb or (max(abs(fa), abs(fb)) > 2 ** 53 and abs(fa - fb) <= 1e-12 * max(abs(fa), abs(fb)))
     if ta == 'array':
         return len(a) == len(b) and all(same(x, y) for x, y in zip(a, b))
     if ta == 'object':
@@ -294,14 +296,21 @@ def _representable(n):
 
 
 any_number = st.one_of(integral, integral, gv.small_numbers, gv.numbers.map(_representable))
+def _away_from_2_53(n):
+    # row values take part in expressions (a + b, a * 2, n + a): next to 2**53 an exact host-int sum and the rounded double sum differ, which
+    # is float rounding of a value no script number can hold, not a spelling difference
+    return n if not (is_number(n) and 2 ** 50 <= abs(n) <= 2 ** 56) else (1e15 if n > 0 else -1e15)
+
+
+row_number = any_number.map(_away_from_2_53)
 simple_elem = st.one_of(integral, gv.strings, st.none(), st.booleans())
 simple_arrays = st.lists(simple_elem, max_size=6)
-rows = st.lists(st.fixed_dictionaries({'a': st.one_of(integral, st.integers(0, 3), st.sampled_from(['x', 'y', '1', '1.0', '2', '0', '2.0', 'true', 'null'])), 'b': any_number},
+rows = st.lists(st.fixed_dictionaries({'a': st.one_of(integral, st.integers(0, 3), st.sampled_from(['x', 'y', '1', '1.0', '2', '0', '2.0', 'true', 'null'])), 'b': row_number},
                                       optional={'c': st.one_of(st.none(), integral, gv.strings)}), max_size=6)
 # category values that collide when a bucket key is built from anything but the value itself: the number n next to the strings that
 # spell it, in either host spelling
 rows_agg = st.lists(st.fixed_dictionaries({'a': st.sampled_from([0, 1, 2, 1, 2, '0', '1', '2', '1.0', '2.0', '0.0', None, True, 'true', 'null']),
-                                           'b': st.one_of(integral, integral, any_number)}, optional={'c': st.sampled_from([1, '1', '1.0', None])}),
+                                           'b': st.one_of(integral, integral, row_number)}, optional={'c': st.sampled_from([1, '1', '1.0', None])}),
                     min_size=2, max_size=8)
 nested = gv.values(2, st.one_of(st.none(), st.booleans(), any_number, gv.strings), 4)
 EXPRS = ['a > 1', 'b', 'a + b', 'a == b', 'a * 2', 'stringNew(a)', 'a % 2 == 0', 'n + a', 'mathFloor(b)']
@@ -419,6 +428,15 @@ def call_strategy(draw, names):
     args = []
     if model is None:
         return name, [draw(anything) for _ in range(crnd.randint(0, 4))]
+    if name == 'dataAggregate' and crnd.random() < 0.2:
+        # ten or more values just below 1e15 in one category: every value (and the mean) is an exactly representable number although the
+        # running total passes 2**53 - so the total itself is not asked for (sum), only average / min / max / count
+        rows_big = draw(st.lists(st.fixed_dictionaries({'a': st.sampled_from([0, 1]), 'b': st.integers(0, 40).map(lambda k: 10 ** 15 - 1 - k)}), min_size=10, max_size=18))
+        measures = draw(st.lists(st.fixed_dictionaries({'field': st.just('b'), 'function': st.sampled_from(['average', 'average', 'min', 'max', 'count'])}), min_size=1, max_size=2))
+        agg = {'measures': measures}
+        if crnd.random() < 0.5:
+            agg['categories'] = ['a']
+        return name, [rows_big, agg]
     mode = crnd.choice(['typed'] * 7 + ['wild', 'short', 'surplus'])
     hint = [0, crnd]
     for spec in model:
